@@ -159,8 +159,8 @@ void make_items(const Options& o, std::vector<Item>& items)
             if (in.has(c)) al.push_back(OpI{(uint8_t)c, (c == STORE || c == ASSIGN) ? -1 : 0});
         auto any = [](const Prog&) { return true; };
         gen(o, items, ii, al, {1, 1}, 3, 6, any);
-        gen(o, items, ii, al, {1, 1, 1}, 2, 3, any);
-        gen(o, items, ii, al, {2, 1}, 2, 4, any);
+        gen(o, items, ii, al, {1, 1, 1}, 3, 3, any);
+        gen(o, items, ii, al, {2, 1}, 3, 4, any);
         if (thorough) {
             gen(o, items, ii, al, {2, 2}, 2, 3, any);
             gen(o, items, ii, al, {1, 1, 1, 1}, 2, 2, [](const Prog& p) {
@@ -186,10 +186,10 @@ void make_items(const Options& o, std::vector<Item>& items)
             return false;
         };
         gen(o, items, ii, al, {1, 1}, 3, 6, mixed);
-        gen(o, items, ii, al, {1, 1, 1}, 2, 3, mixed);
-        if (thorough) gen(o, items, ii, al, {2, 1}, 2, 3, mixed);
+        gen(o, items, ii, al, {1, 1, 1}, 3, 3, mixed);
+        if (thorough) gen(o, items, ii, al, {2, 1}, 3, 3, mixed);
         else
-            gen(o, items, ii, al, {2, 1}, 2, 3, [&](const Prog& p) {
+            gen(o, items, ii, al, {2, 1}, 3, 3, [&](const Prog& p) {
                 // quick: the two-op thread releases one kind of access and takes the other
                 return mixed(p) && is_shared_op(p.threads[0][0].code) != is_shared_op(p.threads[0][1].code);
             });
@@ -236,14 +236,14 @@ void make_items(const Options& o, std::vector<Item>& items)
             gen(o, items, ii, al, {len}, 0, 0, any);
         }
         gen(o, items, ii, al, {1, 1}, 3, 6, any);
-        gen(o, items, ii, al, {1, 1, 1}, 2, 3, any);
+        gen(o, items, ii, al, {1, 1, 1}, 3, 3, any);
         auto reduced = [&](const Prog& p) {
             // quick: two-op thread against a single op, second op a reading one
             uint8_t c = p.threads[0][1].code;
             return c == LOAD || c == EXCHANGE || c == CAS || c == CONVERT;
         };
-        if (thorough) gen(o, items, ii, al, {2, 1}, 2, 3, any);
-        else if (al.size() <= 8) gen(o, items, ii, al, {2, 1}, 2, 3, reduced);
+        if (thorough) gen(o, items, ii, al, {2, 1}, 3, 3, any);
+        else if (al.size() <= 8) gen(o, items, ii, al, {2, 1}, 3, 3, reduced);
         if (thorough && al.size() <= 8) gen(o, items, ii, al, {2, 2}, 2, 2, any);
 #endif
     }
